@@ -282,7 +282,8 @@ ssize_t _whawty_write_data(int sock, const void* data, size_t len, int timeout)
     }
 
     ssize_t nwritten = write(sock, (void*)(data + offset), len - offset);
-    if(nwritten < 0 || (nwritten == 0 && errno != EINTR)) {
+    if(nwritten <= 0) {
+      // an error, or nothing could be written: errno is not set for the latter and must not be looked at
       return offset;
     }
     offset += nwritten;
@@ -368,7 +369,9 @@ ssize_t _whawty_read_data(int sock, const void* data, size_t len, int timeout)
     }
 
     ssize_t nread = read(sock, (void*)(data + offset), len - offset);
-    if(nread < 0 || (nread == 0 && errno != EINTR)) {
+    if(nread <= 0) {
+      // an error, or end-of-file (the agent closed the connection): errno is not set for the latter and must not
+      // be looked at - a stale EINTR left behind by the host process made this loop spin forever on the closed socket
       return offset;
     }
     offset += nread;
